@@ -429,6 +429,18 @@ theorem loop_trace_is_path (w : Nat → List Bool → List Bool → Rat) (cfg : 
     rw [hcl.1, hcl.2] at this
     exact this
 
+
+/-- **Links are symmetric**: if leg `ex` of the op at `pos` is linked to leg `e'` of the op at
+`p'` (next / previous op on the variable, else first / last through p = 0), then `e'` at `p'` is
+linked back to `(pos, ex)` — the walk that retraces a loop backwards moves along the same links.
+(`op'`, `o2'` only supply the variable lists.) -/
+theorem link_symmetric {slots : Slots} {pos : Nat} {op op' : Op} {ex : Leg} {p' : Nat} {e' : Leg}
+    (hop : slots[pos]? = some (some op)) (hv : op'.vars = op.vars) (hn : op.vars.Nodup)
+    (hr : ex.rel < op.vars.length) (h : LoopC.partnerOf slots pos op' ex = some (p', e')) :
+    ∃ o2, slots[p']? = some (some o2) ∧ e'.rel < o2.vars.length ∧ e'.out = !ex.out ∧
+      ∀ o2' : Op, o2'.vars = o2.vars → LoopC.partnerOf slots p' o2' e' = some (pos, ex) :=
+  LoopC.partnerOf_symm hop hv hn hr h
+
 /-- **Path balance.** With `W(c) = Π stored matrix elements` (the SSE weight up to the factor
 `β^n (L-n)!/L!`, unchanged by the loop), `P(path) = P_start · Π_i P(op_i; ent_i → ex_i)` along the
 visits of the run and `P(reverse path) = P_start' · Π_i P(op_i'; ex_i → ent_i)` — the reverse walk
@@ -448,6 +460,55 @@ theorem loop_path_balance (w : Nat → List Bool → List Bool → Rat) (cfg : C
   calc _ = startLegProb cfg.slots *
         (LoopC.slotsWeight w cfg.slots * LoopC.pathProb w (LoopC.loopUpdateTrace w cfg rs)) := by ring
     _ = _ := by rw [this]; ring
+
+
+/-- **The trace of a closed run is a closed loop, and so is the loop retraced backwards.**
+On the result `c'` (same skeleton) the visits of a closed run form a `LoopC.IsLoop` from the start
+leg: every visit fits an op of the string, consecutive visits are linked, the first enters the
+start leg, the last closes and no earlier one does. Retraced backwards — visits in reverse order,
+each rewritten op entered through the old exit and left through the old entrance — they form an
+`IsLoop` again, started at the exit leg of the last visit (`LoopC.IsLoop.reverse`: links are
+symmetric, the closing visit of the retraced loop is the first visit, no earlier one closes). -/
+theorem loop_reverse_is_loop (w : Nat → List Bool → List Bool → Rat) (cfg : Config) (rs : RS)
+    (hwf : WFSlots cfg.slots) (hn : countOps cfg.slots ≠ 0)
+    (hcl : LoopClosed (loopUpdate w cfg rs).2) :
+    ∃ p leg rs' vm, loopStart cfg.slots rs = (some (p, leg), rs') ∧
+      LoopC.IsLoop (loopUpdate w cfg rs).1.slots (p, leg) (LoopC.loopUpdateTrace w cfg rs) ∧
+      (LoopC.loopUpdateTrace w cfg rs).getLast? = some vm ∧
+      LoopC.IsLoop (loopUpdate w cfg rs).1.slots (vm.pos, vm.ex)
+        ((LoopC.loopUpdateTrace w cfg rs).map LoopC.Visit.rev).reverse := by
+  obtain ⟨p, leg, rs', hs, _⟩ := loop_trace_is_path w cfg rs hn hcl
+  have hsk := LoopC.loopUpdate_skeleton w cfg rs
+  have hwf' := LoopC.loopUpdate_wf w cfg rs hwf
+  have hh : LoopC.HeadOK (loopUpdate w cfg rs).1.slots p leg :=
+    LoopC.headOK_skeleton hsk.symm (LoopC.loopStart_head _ _ _ _ _ hs)
+  have hloop : LoopC.IsLoop (loopUpdate w cfg rs).1.slots (p, leg) (LoopC.loopUpdateTrace w cfg rs) := by
+    have hcl' := hcl
+    unfold loopUpdate at hcl'
+    rw [if_neg hn, hs] at hcl'
+    simp only at hcl'
+    have := LoopC.loopTrace_isLoop w (p, leg) (loopUpdate w cfg rs).1.slots
+      (fun o ho => (hwf' o ho).2.2.1) (rs'.script.length + 1) p leg
+      { state := cfg.state, slots := cfg.slots, rs := rs' } hsk.symm hh hcl'.1 hcl'.2
+    unfold LoopC.loopUpdateTrace
+    rw [if_neg hn, hs]
+    simp only
+    obtain ⟨a1, a2, a3, a4, a5⟩ := this
+    exact ⟨a1, a2, a3, a4, a5⟩
+  obtain ⟨vm, hvm, hrev⟩ := hloop.reverse
+  exact ⟨p, leg, rs', vm, hs, hloop, hvm, hrev⟩
+
+/-- **Path balance against the retraced loop.** The reverse factor of `loop_path_balance` is the
+forward probability of the retraced loop of `loop_reverse_is_loop`:
+`W(c) · P_start(c) · P(loop) = W(c') · P_start(c') · P(retraced loop)`. -/
+theorem loop_path_balance_retraced (w : Nat → List Bool → List Bool → Rat) (cfg : Config) (rs : RS) :
+    LoopC.slotsWeight w cfg.slots *
+        (startLegProb cfg.slots * LoopC.pathProb w (LoopC.loopUpdateTrace w cfg rs)) =
+      LoopC.slotsWeight w (loopUpdate w cfg rs).1.slots *
+        (startLegProb (loopUpdate w cfg rs).1.slots *
+          LoopC.pathProb w ((LoopC.loopUpdateTrace w cfg rs).map LoopC.Visit.rev).reverse) := by
+  rw [LoopC.pathProb_rev]
+  exact loop_path_balance w cfg rs
 
 /-! ### 4. cluster gate -/
 
